@@ -102,7 +102,9 @@ def closure(g, inputs, outputs):
                 for i in m.inputs:
                     if i is not None and defined_in(i, g):
                         stack.append(i)
-                    elif i is not None and not _inside(i, sg) and not i.is_initializer() and _outer(i, g):
+                    elif i is not None and not _inside(i, sg) and _outer(i, g) and not (i.is_initializer() and any(i is x for x in g.initializers.values())):
+                        # (an initializer of a graph ENCLOSING the source that is captured only inside a nested body is an outer
+                        # value like any other: the source cannot supply it)
                         outer.append(i)
     uncovered.extend(outer)
     order = [n for n in g if id(n) in needed]
